@@ -227,4 +227,19 @@ example (p : List Stmt) (hp : compile tmpl = .ok p) :
 example : opFreeL [.seq 301001 [.fixedRep 102002 [.elem e1, .delayedRep 101000 (.elem eF) [.elem e2]]]] = true := by
   decide
 
+
+/-! ### the class hypothesis is needed: the open finding F7d inside the model -/
+
+def eF2 : Elem := { id := 31002, kind := .numeric, nbits := 16, scale := 0, ref := 0 }
+
+/-- a bitmap whose length is given by a delayed replication; with factor 0 the interpreted walk stays in
+    the waiting stage and defines no bitmap, the compiled program runs `define_bitmap` and fails -/
+def open7d : List Desc := [ .elem e1, .op 222000, .delayedRep 101000 (.elem eF2) [ .elem eB ], .elem e1 ]
+def bits7d : Bits := toBits 7 5 ++ toBits 16 0 ++ toBits 7 6
+
+example : scopeClosed open7d = false := by decide +kernel
+example : isOk (compile open7d) = true := by decide +kernel
+example : isOk (decodeData open7d false 1 bits7d) = true := by decide +kernel
+example : decodeDataC (progOf open7d) false 1 bits7d = .error .lib := by decide +kernel
+
 end Bufr.C08Ex
